@@ -167,6 +167,9 @@ fn emit_inf_norm(out: &mut String, r: &mut Rng, id: &str, dim: usize, lo: Option
 
 // ---------------------------------------------------------------- from_poly
 fn emit_from_poly(out: &mut String, r: &mut Rng, id: &str, poly: Polytope, f: AffFunc, g: Option<AffFunc>) {
+    emit_from_poly_pts(out, r, id, poly, f, g, true)
+}
+fn emit_from_poly_pts(out: &mut String, r: &mut Rng, id: &str, poly: Polytope, f: AffFunc, g: Option<AffFunc>, with_pts: bool) {
     let head = format!(
         "(case {} from_poly {} {} {}",
         id,
@@ -184,8 +187,8 @@ fn emit_from_poly(out: &mut String, r: &mut Rng, id: &str, poly: Polytope, f: Af
         Ok(Ok(t)) => {
             // lattice points, points on single facets, and vertices-like points solving two rows at once are all in
             // the half-step lattice for the small integer data used here
-            let mut pts = gen_points_for(r, &t, 6);
-            for _ in 0..4 {
+            let mut pts = if with_pts { gen_points_for(r, &t, 6) } else { Vec::new() };
+            for _ in 0..(if with_pts { 4 } else { 0 }) {
                 pts.push(half_steps(r, n));
             }
             out.push_str(&format!("{} ok {} {})\n", head, sx_tree(&t), pts_string(&t, &pts)));
@@ -228,7 +231,35 @@ fn gen_poly(r: &mut Rng, rows: usize, n: usize) -> Polytope {
 fn random_from_poly(out: &mut String, r: &mut Rng, id: &str) {
     let n = 1 + r.below(3);
     let rows = if r.chance(1, 25) { 0 } else { 1 + r.below(5) };
-    let poly = gen_poly(r, rows, n);
+    let mut poly = gen_poly(r, rows, n);
+    // one polytope in six has rows of very different scale: a whole row times 2^-60 (the same half-space), or a copy of
+    // a row with 2^-60 added to one coefficient (nearly, but not, parallel).  from_poly must keep every row; evaluate()
+    // rounds on such data, so these cases are decided on the tree alone
+    let tiny = rows >= 1 && r.chance(1, 6);
+    if tiny {
+        let mut m = poly.mat.to_owned();
+        let mut b = poly.bias.to_owned();
+        for i in 0..rows {
+            match r.below(3) {
+                0 => {
+                    for j in 0..n {
+                        m[[i, j]] *= 2f64.powi(-60);
+                    }
+                    b[i] *= 2f64.powi(-60);
+                }
+                1 if i > 0 => {
+                    let k = r.below(i);
+                    for j in 0..n {
+                        m[[i, j]] = m[[k, j]];
+                    }
+                    b[i] = b[k];
+                    m[[i, r.below(n)]] += 2f64.powi(-60);
+                }
+                _ => {}
+            }
+        }
+        poly = Polytope::from_mats(m, b);
+    }
     let fm = 1 + r.below(2);
     let fin = if r.chance(1, 20) { n + 1 } else { n };
     let f = gen_aff(r, fm, fin, 4);
@@ -238,7 +269,7 @@ fn random_from_poly(out: &mut String, r: &mut Rng, id: &str) {
         let gin = if r.chance(1, 20) { n + 1 } else { n };
         Some(gen_aff(r, fm, gin, 4))
     };
-    emit_from_poly(out, r, id, poly, f, g);
+    emit_from_poly_pts(out, r, id, poly, f, g, !tiny);
 }
 
 // ---------------------------------------------------------------- slicing and remove_axes
